@@ -33,7 +33,7 @@ CLAIMED = {
     "C08": ("Decided at the level of the contracts of C01-C03 (a code change that breaks a symmetry breaks one of those obligations: symbols, masks, nonlinear terms, constructors) plus lemmas over the documented symbols of every stepper of the table: sigma_doc is invariant under every axis permutation for isotropic parameters, sigma_D restricted to one axis equals sigma_1 (zeroth generic coefficient excluded: documented D*a_0 convention), wavenumber layout of full and halved axes agree below Nyquist.",
             NOTE + "translation equivariance rests on the shift theorem (A5) for Fourier multipliers / pointwise products; covariance of the documented continuous nonlinear operators under axis/channel permutation is textbook and assumed.", "4/C08"),
     "C09": ("From the C02/C03 contracts: sigma_doc(0)=0 for every conservation-form stepper; the conservative convection, mean-removed gradient-norm and Cahn-Hilliard terms vanish at the mean mode for EVERY state (using rfftn[0]=sum); every ETDRK order then leaves the mean coefficient unchanged; constant equilibria (N(u) = -lambda u) are fixed points of orders 1-4 with the closed-form coefficients.",
-            NOTE + "A7 (coefficients = closed forms); for non-conservative convection forms, 2D vorticity and 3D rotational convection the vanishing mean of the convective term and the energy/enstrophy neutrality are integration by parts over a symbolic-size grid (A5) -- assumed, not discharged.", "4/C09"),
+            NOTE + "A7 (coefficients = closed forms); for non-conservative convection forms, 2D vorticity and 3D rotational convection the vanishing mean of the convective term (3D: for divergence-free velocities only) and the energy/enstrophy neutrality are integration by parts over a symbolic-size grid (A5) -- assumed, NOT decided by this check. Known finding F7 (listed in known_findings.json, reported as KNOWN-FINDING): on grids with N <= 3 the dealiasing band is empty, the nonlinear term vanishes and reaction equilibria are not fixed points; the same obligation for N >= 4 is separate and must hold.", "4/C09"),
     "C15": ("FourierInterpolator (constructor, __call__) equals the documented reconstruction-scaled Fourier sum; map_between_resolutions is proved for ALL N_old, N_new >= 2 (all parity combinations, D in {1,2,3}, both oddball flags): every stored new mode in the common band receives the old coefficient of the same wavenumber times (N_new/N_old)^D, all others zero; lemma: the mean of any state is preserved.",
             NOTE + "A5 (band-limited exactness follows from the per-mode statement).", "4/C15"),
     "C16": ("spatial_aggregator / spatial_norm / the nine spatial metrics, fourier_aggregator / fourier_norm / six Fourier metrics, six H1 metrics, correlation and mean_metric (batch axis of symbolic length) are proved equal to the documented formulas (floor, band masks, derivative factor, Parseval weights 1/recon, per-channel sums) for symbolic C, N, L; lemmas: L^D scaling, homogeneity, zero, symmetry, band partition, N^D/recon = Hermitian multiplicity.",
